@@ -1,0 +1,56 @@
+//! Verification hooks (simulation seams). Only compiled with the `verif-hooks` feature.
+//!
+//! All state is thread-local so that several independent simulations can run in one process.
+#![allow(missing_docs)]
+use std::cell::{Cell, RefCell};
+
+thread_local! {
+    static WALL_CLOCK_MICROS: Cell<Option<u64>> = const { Cell::new(None) };
+    static TXN_AGE_CB: RefCell<Option<Box<dyn FnMut() -> bool>>> = const { RefCell::new(None) };
+    static SYNC_CONFIG: Cell<Option<(usize, usize)>> = const { Cell::new(None) };
+    static PROBES: RefCell<std::collections::BTreeMap<&'static str, u64>> =
+        const { RefCell::new(std::collections::BTreeMap::new()) };
+}
+
+/// Set (or clear) the simulated wall clock, in microseconds since the Unix epoch.
+pub fn set_wall_clock_micros(v: Option<u64>) {
+    WALL_CLOCK_MICROS.with(|c| c.set(v));
+}
+
+/// The simulated wall clock, if set.
+pub fn wall_clock_micros() -> Option<u64> {
+    WALL_CLOCK_MICROS.with(|c| c.get())
+}
+
+/// Install a callback that is asked, at every internal store access, whether the open write
+/// transaction should look older than the maximum commit delay.
+pub fn set_txn_age_cb(cb: Option<Box<dyn FnMut() -> bool>>) {
+    TXN_AGE_CB.with(|c| *c.borrow_mut() = cb);
+}
+
+pub(crate) fn txn_age_now() -> bool {
+    TXN_AGE_CB.with(|c| match c.try_borrow_mut() {
+        Ok(mut cb) => cb.as_mut().map(|f| f()).unwrap_or(false),
+        Err(_) => false,
+    })
+}
+
+/// Override the reconciliation parameters `(max_set_size, split_factor)`.
+pub fn set_sync_config(v: Option<(usize, usize)>) {
+    SYNC_CONFIG.with(|c| c.set(v));
+}
+
+pub(crate) fn sync_config() -> Option<(usize, usize)> {
+    SYNC_CONFIG.with(|c| c.get())
+}
+
+/// Count a visit of a rare branch.
+#[allow(dead_code)]
+pub(crate) fn probe(site: &'static str) {
+    PROBES.with(|p| *p.borrow_mut().entry(site).or_insert(0) += 1);
+}
+
+/// Take and reset the probe counters of this thread.
+pub fn take_probes() -> std::collections::BTreeMap<&'static str, u64> {
+    PROBES.with(|p| std::mem::take(&mut *p.borrow_mut()))
+}
